@@ -321,7 +321,7 @@ func refMatchWithK(seq, query []byte) ([][2]int, bool) {
 func init() {
 	register(&Check{ID: "C18", Level: "model_checking", Quick: 300 * time.Second, Thor: 40 * time.Minute,
 		Run: func(r *engine.Run) bool {
-			r.Rule = "all 256 byte values through Complement/Transcribe; every (query letter x sequence letter) pair of the IUPAC alphabet in both cases and every printable non-alphabet query byte against every printable sequence byte; all sequences of length <=N and queries of length <=3 over {a,c,g,t,r,n,A,K}; periodic sequences of every length of the size ladder (up to 140000 quick / 2200000 thorough) against 3 (quick) / 7 (thorough) short queries, periodic queries of every length 4..1100 and of the ladder up to 5000 / 70000; distinct key = (op, query, sequence); non-trivial = the reference has >=1 match or the query has a non-alphabet byte"
+			r.Rule = "all 256 byte values through Complement/Transcribe; every (query letter x sequence letter) pair of the IUPAC alphabet in both cases and every printable non-alphabet query byte against every printable sequence byte; all sequences of length <=N and queries of length <=3 over {a,c,g,t,r,n,A,K}; 72-letter sequences with a run of each IUPAC letter (both cases) at ten positions against the windows around it in five spellings; periodic sequences of every length of the size ladder (up to 140000 quick / 2200000 thorough) against 3 (quick) / 7 (thorough) short queries, periodic queries of every length 4..1100 and of the ladder up to 5000 / 70000; distinct key = (op, query, sequence); non-trivial = the reference has >=1 match or the query has a non-alphabet byte"
 			bulk := false
 			eval := func(c c18Case, nontrivial bool) {
 				c.SeqS, c.QryS = string(c.Seq), string(c.Query)
@@ -408,6 +408,39 @@ func init() {
 				for _, qp := range []string{"a", "ac", "n", "r"} {
 					for _, extra := range []int{0, 1, m, m + 3} {
 						long = append(long, c18Case{Op: "search", SeqPat: qp, SeqN: m + extra, QryPat: qp, QryN: m}, c18Case{Op: "match", SeqPat: "ac", SeqN: m + extra, QryPat: qp, QryN: m})
+					}
+				}
+			}
+			// medium sequences (70..75 letters, past any "short input" shortcut): a lower-case acgt background with a run of
+			// three copies of each IUPAC letter (both cases, u/U included) at ten positions; queries are the windows of
+			// 1, 2, 3, 9 and 12 letters around the run, as written, lower-cased, upper-cased and with t<->u exchanged
+			{
+				bg := make([]byte, 72)
+				x := uint32(99)
+				for i := range bg {
+					x = x*1664525 + 1013904223
+					bg[i] = "acgt"[x>>30]
+				}
+				for _, p := range []int{0, 7, 31, 32, 33, 60, 61, 62, 64, 69} {
+					for _, l := range []byte("ACGTURYKMSWBDHVNacgturykmswbdhvn") {
+						sq := append([]byte(nil), bg...)
+						for k := 0; k < 3 && p+k < len(sq); k++ {
+							sq[p+k] = l
+						}
+						for _, w := range []int{1, 2, 3, 9, 12} {
+							st := p - w/2
+							if st < 0 {
+								st = 0
+							}
+							if st+w > len(sq) {
+								st = len(sq) - w
+							}
+							q0 := string(sq[st : st+w])
+							swap := strings.NewReplacer("t", "u", "u", "t", "T", "U", "U", "T")
+							for _, q := range []string{q0, strings.ToLower(q0), strings.ToUpper(q0), swap.Replace(q0), swap.Replace(strings.ToLower(q0))} {
+								long = append(long, c18Case{Op: "search", Seq: sq, Query: []byte(q)}, c18Case{Op: "match", Seq: sq, Query: []byte(q)})
+							}
+						}
 					}
 				}
 			}
